@@ -896,7 +896,7 @@ class Interp:
         return out
 
     def e_closure(self, n, st):
-        return [(st, ("clo", n))]
+        return [(st, ("clo", n, self.fx, dict(st.env)))]
 
     def e_ret(self, n, st):
         if n.get("e") is None:
@@ -1330,6 +1330,10 @@ class Interp:
                 fv, args = vs[0], vs[1:]
                 if fv[0] == "clo":
                     out.extend(self.apply_closure(fv, args, s))
+                elif fv[0] == "fn" and fv[1]:
+                    out.extend(self.call_fn(n, fv[1], fv[1], None, args, s))       # `read(d)` with read = Decoder::skip
+                elif fv[0] == "var" and not fv[3] and args and fv[1] not in (OPTION,):
+                    out.append((s, ("var", fv[1], fv[2], args)))     # a tuple-variant constructor used as a function value
                 else:
                     out.append((self.opaque_call(s, args, "call of a function value"), sym("call", self.ty(n))))
             return out
@@ -1338,6 +1342,17 @@ class Interp:
         for s, args in self.seq(n["args"], st):
             if s.status is not None:
                 out.append((s, UNIT))
+                continue
+            if rk == "Local":
+                fv = s.env.get(n.get("lid"), sym("fn-value"))        # a closure / fn path held in a local or parameter
+                if fv[0] == "clo":
+                    out.extend(self.apply_closure(fv, args, s))
+                elif fv[0] == "fn" and fv[1]:
+                    out.extend(self.call_fn(n, fv[1], fv[1], None, args, s))
+                elif fv[0] == "var" and not fv[3] and args:
+                    out.append((s, ("var", fv[1], fv[2], args)))
+                else:
+                    out.append((self.opaque_call(s, args, "a function value the interpreter does not know"), sym("call", self.ty(n))))
                 continue
             if rk.startswith("Ctor:Variant"):
                 out.append((s, ("var", n["adt"], n["variant"], args)))
@@ -1353,6 +1368,15 @@ class Interp:
             if s.status is not None:
                 out.append((s, UNIT))
                 continue
+            if vs[0][0] == "byteseq" and n.get("name") in ("push", "extend_from_slice", "extend") and len(vs) == 2:
+                r = n["recv"]
+                while isinstance(r, dict) and r.get("k") in ("ref",) or (isinstance(r, dict) and r.get("k") == "un" and r.get("op") == "Deref"):
+                    r = r.get("e") or r.get("a")
+                if isinstance(r, dict) and r.get("k") == "path" and r.get("rk") == "Local":
+                    add = [vs[1]] if n["name"] == "push" else _byte_parts(vs[1])
+                    s.env[r["lid"]] = ("byteseq", list(vs[0][1]) + add)
+                    out.append((s, UNIT))
+                    continue
             out.extend(self.call_fn(n, n.get("def") or "", n.get("inst"), vs[0], vs[1:], s))
         return out
 
@@ -1365,27 +1389,41 @@ class Interp:
 
     def closure_uses_handle(self, clo, s):
         from .hirwalk import walk
+        env = clo[3] if len(clo) > 3 else s.env
         for x in walk(clo[1]["body"]):
-            if x.get("k") == "path" and x.get("rk") == "Local" and self.is_handle(s.env.get(x.get("lid"), UNIT)):
+            if x.get("k") == "path" and x.get("rk") == "Local" and (self.is_handle(env.get(x.get("lid"), UNIT)) or self.is_handle(s.env.get(x.get("lid"), UNIT))):
                 return True
         return False
 
     def apply_closure(self, clo, args, st):
+        """evaluate a closure value: in the function context it was written in, with the environment it captured
+        (plus what the current frame knows, for closures applied where they are written)"""
         node = clo[1]
-        acc = [(st, True)]
-        for p, a in zip(node.get("params", []), args):
-            nxt = []
+        foreign = len(clo) > 2 and clo[2] is not self.fx
+        saved_env = st.env
+        if foreign:
+            st.env = dict(clo[3])
+            self.fstack.append(clo[2])
+        try:
+            acc = [(st, True)]
+            for p, a in zip(node.get("params", []), args):
+                nxt = []
+                for s, okk in acc:
+                    nxt.extend(self.match_pat(p, a, s))
+                acc = nxt
+            out = []
             for s, okk in acc:
-                nxt.extend(self.match_pat(p, a, s))
-            acc = nxt
-        out = []
-        for s, okk in acc:
-            for s2, v in self.eval(node["body"], s):
-                if s2.status is not None and s2.status[0] == "ret":
-                    v = s2.status[1]
-                    s2.status = None
-                out.append((s2, v))
-        return out
+                for s2, v in self.eval(node["body"], s):
+                    if s2.status is not None and s2.status[0] == "ret":
+                        v = s2.status[1]
+                        s2.status = None
+                    if foreign:
+                        s2.env = dict(saved_env)
+                    out.append((s2, v))
+            return out
+        finally:
+            if foreign:
+                self.fstack.pop()
 
     def call_fn(self, n, d, inst, recv, args, s):
         """dispatch a resolved call; recv is None for path calls"""
@@ -1435,6 +1473,8 @@ class Interp:
         if recv is not None and recv[0] == "sym" and recv[1] == "input-bytes" and name == "get" and len(args) == 1 and args[0][0] == "pos":
             hb = self.head_byte(s, args[0])
             return [(s, some(hb) if hb is not None else NONE)]
+        if recv is None and name in ("with_capacity", "new") and d.startswith("alloc::vec::Vec") and (ty or "").replace(" ", "") == "alloc::vec::Vec<u8>":
+            return [(s, ("byteseq", []))]
         # ---- byte sequences assembled by hand (raw head bytes)
         if recv is not None and name in ("to_be_bytes",) and not args:
             t = parse_type(ty or "")
@@ -1449,6 +1489,9 @@ class Interp:
             return [(s, allargs[-1 if recv is None else 0])]
         # ---- lengths, ranges, iterators
         if recv is not None and name == "len" and not args:
+            fixed = self.array_len(recv)
+            if fixed is not None:
+                return [(s, C(fixed))]
             k = self.keyof(recv)
             if k is not None:
                 return [(s, lin(0, [("len(%s)" % k, 1)]))]
@@ -1585,8 +1628,17 @@ class Interp:
             if not good:
                 return [(s, recv)]
             return [(s2, ("var", adt, var, [v])) for s2, v in self.apply_closure(args[0], [inner], s)]
+        if name == "map" and args and args[0][0] == "var" and not args[0][3]:
+            if not good:
+                return [(s, recv)]
+            return [(s, ("var", adt, var, [("var", args[0][1], args[0][2], [inner])]))]      # `.map(AnyUInt::U64)`
         if name == "map" and args and args[0][0] in ("fn",) and good:
-            return [(s, ("var", adt, var, [sym("mapped", None)]))]
+            res = self.call_fn(n, args[0][1] or "", args[0][1], None, [inner], s)
+            return [(s2, ("var", adt, var, [v])) for s2, v in res]
+        if name in ("is_some_and", "is_ok_and", "is_none_or") and args and args[0][0] == "clo":
+            if not good:
+                return [(s, C(name == "is_none_or"))]
+            return self.apply_closure(args[0], [inner], s)
         if name in ("and_then",) and args and args[0][0] == "clo":
             if not good:
                 return [(s, recv)]
@@ -1594,8 +1646,93 @@ class Interp:
         return None
 
     # -- loops
+    def while_counter(self, n, st):
+        """`while c > 0 { ..; c -= 1 }` / `while i < n { ..; i += 1 }` with exactly one unconditional unit step of the counter
+        and no other write to it, no break/continue: -> (trip count value, body block, counter lid, final value) or None"""
+        from .hirwalk import walk
+        if n.get("src") != "While":
+            return None
+        b = n["body"]
+        inner = b.get("expr")
+        if inner is None and len(b.get("stmts", [])) == 1:
+            inner = b["stmts"][0].get("e")
+        if not isinstance(inner, dict) or inner.get("k") != "if" or inner.get("else") is None:
+            return None
+        els = inner["else"]
+        eb = els.get("expr") if els.get("k") == "block" else els
+        if els.get("k") == "block" and eb is None and len(els.get("stmts", [])) == 1:
+            eb = els["stmts"][0].get("e")
+        if not isinstance(eb, dict) or eb.get("k") != "break":
+            return None
+        c, body = inner["c"], inner["then"]
+        if c.get("k") != "bin" or body.get("k") != "block":
+            return None
+
+        def local(x):
+            x = x if isinstance(x, dict) else {}
+            while x.get("k") in ("cast", "ref") or (x.get("k") == "un" and x.get("op") == "Deref"):
+                x = x.get("a") or x.get("e")
+            return x.get("lid") if x.get("k") == "path" and x.get("rk") == "Local" else None
+
+        def lit(x):
+            return x["v"].get("int") if isinstance(x, dict) and x.get("k") == "lit" and "int" in x.get("v", {}) else None
+
+        op, a, bb = c["op"], c["a"], c["b"]
+        down = up = None
+        if local(a) is not None and lit(bb) is not None and ((op in ("Gt", "Ne") and lit(bb) == 0) or (op == "Ge" and lit(bb) == 1)):
+            down = local(a)
+        elif local(bb) is not None and lit(a) is not None and ((op in ("Lt", "Ne") and lit(a) == 0) or (op == "Le" and lit(a) == 1)):
+            down = local(bb)
+        elif local(a) is not None and op in ("Lt", "Ne"):
+            up = (local(a), bb)
+        elif local(bb) is not None and op in ("Gt", "Ne"):
+            up = (local(bb), a)
+        ctr = down if down is not None else (up[0] if up else None)
+        if ctr is None:
+            return None
+        want = "SubAssign" if down is not None else "AddAssign"
+        steps = 0
+        for st_ in body.get("stmts", []):
+            e = st_.get("e") if st_.get("k") in ("semi", "expr") else None
+            if isinstance(e, dict) and e.get("k") == "assignop" and local(e["lhs"]) == ctr and e.get("op") in (want, want[:3]) and lit(e["rhs"]) == 1:
+                steps += 1
+            elif isinstance(e, dict) and e.get("k") == "assign" and local(e["lhs"]) == ctr and e["rhs"].get("k") == "bin" \
+                    and e["rhs"]["op"] == want[:3] and local(e["rhs"]["a"]) == ctr and lit(e["rhs"]["b"]) == 1:
+                steps += 1
+        writes = 0
+        for x in walk(body):
+            if x.get("k") in ("assign", "assignop") and local(x["lhs"]) == ctr:
+                writes += 1
+            if x.get("k") in ("break", "continue"):
+                return None
+            if x.get("k") == "ref" and x.get("mut") and local(x.get("e")) == ctr:
+                return None
+        if steps != 1 or writes != 1:
+            return None
+        v0 = self.resolve(st.env.get(ctr, sym("?")), st)
+        if as_lin(v0) is None:
+            return None
+        if down is not None:
+            return v0, body, ctr, C(0)
+        res = self.eval(up[1], st)
+        if len(res) != 1 or res[0][0].status is not None or as_lin(res[0][1]) is None:
+            return None
+        trip = lin_add(res[0][1], v0, -1)
+        return (trip, body, ctr, res[0][1]) if trip is not None else None
+
     def e_loop(self, n, st):
         from .hirwalk import walk
+        if self.body_uses_handle(n["body"], st):
+            wc = self.while_counter(n, st)
+            if wc is not None:
+                trip, body, ctr, final = wc
+                fake = {"pat": {"k": "wild"}, "body": body, "l": n.get("l")}
+                rng = ("range", C(0), trip)
+                res = self.enc_loop(fake, rng, st) if self.mode == "enc" else self.dec_loop(fake, rng, st)
+                for s2, _ in res:
+                    if s2.status is None:
+                        s2.env[ctr] = final
+                return res
         for x in walk(n["body"]):
             if x.get("k") == "path" and x.get("rk") == "Local" and self.is_handle(st.env.get(x.get("lid"), UNIT)):
                 self.unan(st, "`loop`/`while` around encoder/decoder calls")
@@ -1644,9 +1781,27 @@ class Interp:
                 out.extend(self.dec_loop(n, it, s))
         return out
 
+    def array_len(self, it, node=None):
+        """N when the iterated value is a fixed-size array `[T; N]` (by its type), else None"""
+        for ts in ((it[2] if it is not None and it[0] == "sym" and len(it) > 2 else None), (self.ty(node) if node is not None else None)):
+            if ts:
+                t = parse_type(ts)
+                if t[0] == "adt" and t[1] == "core::array::iter::IntoIter" and len(t[2]) == 1:
+                    m_ = re.search(r",\s*(\d+)>\s*$", ts)
+                    if m_:
+                        return int(m_.group(1))
+                if t[0] == "array" and str(t[2]).isdigit():
+                    return int(t[2])
+        if it is not None and it[0] == "arrv":
+            return len(it[1])
+        return None
+
     def enc_loop(self, n, it, s):
         key = self.keyof(it) if it[0] == "sym" else None
-        if it[0] == "range":
+        fixed = self.array_len(it, n.get("iter"))
+        if fixed is not None:
+            cnt = C(fixed)
+        elif it[0] == "range":
             cnt = lin_add(it[2], it[1], -1) if it[1] is not None and it[2] is not None else None
         elif key is not None:
             cnt = lin(0, [("len(%s)" % key, 1)])
@@ -1682,7 +1837,10 @@ class Interp:
             self.unan(s, "loop body exits early (%s)" % first.status[0])
             return [(s, UNIT)]
         body = first.out
-        first.out = saved + [Tok("loop", n=cnt, body=body, key=key, line=n.get("l"))]
+        if cnt is not None and cnt[0] == "c" and isinstance(cnt[1], int) and 0 <= cnt[1] <= 32:
+            first.out = saved + body * cnt[1]          # a constant trip count: the loop is just that many items
+        else:
+            first.out = saved + [Tok("loop", n=cnt, body=body, key=key, line=n.get("l"))]
         return [(first, UNIT)]
 
     def run_rangemap(self, rm, s, n):
@@ -2101,8 +2259,11 @@ class Interp:
                     d = v
                     break
         if it[0] != "range":
-            self.unan(s, "decoder loop over something other than `0..len`")
-            return [(s, UNIT)]
+            fixed = self.array_len(it, n.get("iter"))
+            if fixed is None:
+                self.unan(s, "decoder loop over something other than `0..len` or a fixed-size array")
+                return [(s, UNIT)]
+            it = ("range", C(0), C(fixed))      # `for slot in buf.iter_mut()` over `[T; N]`: N iterations by type
         cnt = lin_add(it[2], it[1], -1) if it[1] is not None and it[2] is not None else None
         stream, i = self.stream(s, d)
         if cnt is not None and cnt[0] == "c" and isinstance(cnt[1], int) and cnt[1] <= 16 and (i >= len(stream) or stream[i].kind != "loop"):
@@ -2157,19 +2318,18 @@ class Interp:
 
 
 def _is_accessor(hir):
-    """a body that only returns (a reference to / copy of) a place: `&self.inner`, `self.0.deref()`"""
+    """a body that only returns a place or builds a value from its arguments without control flow: `&self.inner`,
+    `self.0.deref()`, `Self { inner }`, `Cow::Owned(Vec::new())`"""
     from .hirwalk import walk
     n = 0
     for x in walk(hir["root"]):
         n += 1
         k = x.get("k")
-        if n > 12:
+        if n > 30:
             return False
-        if k in ("block", "ref", "field", "path", "un", "cast"):
+        if k in ("block", "ref", "field", "path", "un", "cast", "struct", "call", "mcall", "tup", "lit"):
             if k == "block" and x.get("stmts"):
                 return False
-            continue
-        if k == "mcall" and x.get("name") in Interp.TRANSPARENT and not x.get("args"):
             continue
         return False
     return True
